@@ -12,24 +12,38 @@ from menpo.transform.piecewiseaffine.base import TriangleContainmentError
 
 PROPERTY = "C09"
 RULE = (
-    "Histories on ONE transform instance, generated as data: a transform (50% CachedPWA/PythonPWA/PiecewiseAffine, "
-    "else any of the homogeneous family, chains, WithDims, TPS) and 3-12 steps drawn from {apply new array, apply an "
-    "earlier array object again, edit one coordinate of an earlier array in place by delta in {1e-12..1} and apply it, "
-    "apply a fresh array equal to an earlier one up to delta, apply a PointCloud, apply with batch size k in "
-    "{1,2,3,n-1,n,n+1,2n+1}, apply a mix of in-domain and clearly out-of-domain points (PWA)}. Non-trivial: >= 3 "
-    "applies of which >= 1 re-uses or perturbs an earlier input (history clause); k does not divide n (batch clause); "
-    "both inside and outside points present (error clause)."
+    "Histories on ONE transform instance, generated as data: a transform (47% CachedPWA/PythonPWA/PiecewiseAffine - 40% of "
+    "them over an explicit TriMesh source = Delaunay with triangles removed -, else the homogeneous family, chains, "
+    "WithDims with list / int / mask / slice dims (alone or as last member of a chain), TPS, the radial basis kernels "
+    "R2LogR2RBF / R2LogRRBF) and 3-12 steps drawn from {apply new array, apply an earlier array object again, edit one "
+    "coordinate of an earlier array in place by delta in {1e-12..1} and apply it, apply a fresh array equal to an earlier "
+    "one up to delta, apply a PointCloud, apply a PointCloud / TriMesh / LandmarkManager carrying 1-2 landmark groups that "
+    "equal the points up to delta (several _apply calls in one public apply), apply the same values in 2-3 dtypes / memory "
+    "layouts, apply with batch size k in {1,2,3,n-1,n,n+1,2n+1}, apply a mix of 0..6 in-domain and 1..3 out-of-domain "
+    "points (PWA; far away or inside a removed triangle)}. Every array apply() hands back is kept: it must not alias "
+    "the argument or another result, must not change when arrays passed earlier are edited or later applies happen, "
+    "and writing into it must not reach the argument. Non-trivial: >= 3 applies of which >= 1 re-uses or perturbs an "
+    "earlier input (history clause); k does not divide n (batch clause); both inside and outside points present, the "
+    "inside ones lying on shared edges / vertices (mesh clause)."
 )
 ASSUMPTIONS = [
     "history-free reference: a freshly built transform from the same case applied to a private copy of the current "
-    "values (no history by construction), plus explicit references: homogeneous product for the homogeneous family and "
-    "a barycentric point-location model for piecewise affine (using the transform's own triangle list as a parameter)",
+    "values (no history by construction), plus explicit references: homogeneous product for the homogeneous family, "
+    "column selection for WithDims, the kernel formula for the radial basis functions and a barycentric "
+    "point-location model for piecewise affine (using the transform's own triangle list as a parameter)",
     "PWA in-domain points are strict convex combinations of source triangles (weights >= 0.05), out-of-domain points lie "
-    "3 extents away from the centroid, so containment is never decided by rounding; PWA perturbations are <= 1e-3",
+    "3 extents away from the centroid or inside a removed triangle with barycentric margin >= 1e-9 to every kept one, so "
+    "containment is never decided by rounding; PWA perturbations are <= 1e-3",
+    "clause mesh: points exactly ON the source mesh (vertices, edge midpoints) are asserted to be inside only for integer "
+    "vertex coordinates, where every product in menpo's barycentric solve is exact and alpha + beta <= 1 holds after "
+    "rounding (x * fl(1/x) <= 1); other points of an edge are not generated",
+    "constrain: how the previous content of a non-blank mask combines with the region is not judged (batch-size "
+    "independence only); pixels exactly on a triangle boundary are judged for batch-size independence only",
 ]
 
 _CACHE = ("._applied_points", "._iab")
 PWA_KINDS = ("CachedPWA", "PythonPWA", "PiecewiseAffine")
+RBF_KINDS = ("R2LogR2RBF", "R2LogRRBF")
 
 
 _LAST_PWA_COND = [1.0]
@@ -84,32 +98,185 @@ def pwa_safely_inside(src, trilist, x, margin=1e-9):
     return ok
 
 
-def _build(tc):
-    if tc["kind"] == "PiecewiseAffine":
-        import menpo.transform as mt
+def mesh_bary_min(src, trilist, pts):
+    """For each point the largest, over the triangles, of its smallest barycentric coordinate: > 0 strictly inside a
+    triangle, == 0 on the boundary of one (and strictly inside none), < 0 outside all of them. Edge functions (cross
+    products) - not the alpha/beta solve of the code under test; exact for small integer / dyadic coordinates."""
+    src = np.asarray(src, dtype=float)
+    pts = np.asarray(pts, dtype=float).reshape(-1, 2)
+    best = np.full(pts.shape[0], -np.inf)
 
-        return mt.PiecewiseAffine(PointCloud(gen.arr(tc["src"])), PointCloud(gen.arr(tc["tgt"])))
+    def cross(u, v):
+        return u[..., 0] * v[..., 1] - u[..., 1] * v[..., 0]
+
+    for tri in trilist:
+        a, b, c = src[tri[0]], src[tri[1]], src[tri[2]]
+        area = cross(b - a, c - a)
+        if area == 0:
+            continue
+        la = cross(c - b, pts - b) / area
+        lb = cross(a - c, pts - c) / area
+        lc = cross(b - a, pts - a) / area
+        best = np.maximum(best, np.minimum(np.minimum(la, lb), lc))
+    return best
+
+
+def _split_trilist(tc):
+    """(kept, dropped) triangles of a piecewise-affine case: the Delaunay triangulation menpo computes for the source
+    points, minus the triangles the case removes (an explicit TriMesh source: holes, notches, separate pieces)."""
+    from menpo.shape import TriMesh
+
+    full = np.array(TriMesh(gen.arr(tc["src"])).trilist)
+    gone = np.zeros(len(full), dtype=bool)
+    for k in tc.get("drop") or []:
+        gone[k % len(full)] = True
+    if gone.all():
+        gone[0] = False
+    return full[~gone], full[gone]
+
+
+def _wd_dims(wd):
+    if wd["form"] == "mask":
+        return np.array(wd["dims"], dtype=bool)
+    if wd["form"] == "slice":
+        return slice(*wd["dims"])
+    return wd["dims"]
+
+
+def _wd_cols(wd):
+    """The input columns a WithDims keeps, in order, by the plain-python meaning of its index."""
+    d = wd["d"]
+    if wd["form"] == "int":
+        return [wd["dims"] % d]
+    if wd["form"] == "list":
+        return [v % d for v in wd["dims"]]
+    if wd["form"] == "mask":
+        return [i for i, b in enumerate(wd["dims"]) if b]
+    return list(range(d))[slice(*wd["dims"])]
+
+
+def _select_cols(x, cols):
+    x = np.asarray(x)
+    out = np.zeros((x.shape[0], len(cols)), dtype=x.dtype)
+    for i in range(x.shape[0]):
+        for j, c in enumerate(cols):
+            out[i, j] = x[i, c]
+    return out
+
+
+def _rbf_reference(kind, centres, x):
+    """r^2 log r^2 (R2LogR2RBF) / r^2 log r (R2LogRRBF) of the distance to every centre, 0 at a centre: (n, n_centres)."""
+    import math
+
+    x = np.asarray(x, dtype=float)
+    c = np.asarray(centres, dtype=float)
+    out = np.zeros((x.shape[0], c.shape[0]))
+    for i in range(x.shape[0]):
+        for j in range(c.shape[0]):
+            r2 = sum((x[i, a] - c[j, a]) ** 2 for a in range(c.shape[1]))
+            if r2 > 0:
+                out[i, j] = r2 * math.log(r2) * (1.0 if kind == "R2LogR2RBF" else 0.5)
+    return out
+
+
+def _build(tc):
+    import menpo.transform as mt
+    from menpo.shape import TriMesh
+    from menpo.transform import rbf
+    from menpo.transform.piecewiseaffine.base import CachedPWA, PythonPWA
+
+    kind = tc["kind"]
+    if kind in PWA_KINDS:
+        cls = {"PiecewiseAffine": mt.PiecewiseAffine, "CachedPWA": CachedPWA, "PythonPWA": PythonPWA}[kind]
+        src = gen.arr(tc["src"])
+        source = TriMesh(src, trilist=_split_trilist(tc)[0]) if tc.get("drop") else PointCloud(src)
+        return cls(source, PointCloud(gen.arr(tc["tgt"])))
+    if kind == "WithDims":
+        return mt.WithDims(_wd_dims(tc))
+    if kind == "ChainWithDims":
+        return mt.TransformChain([objs.build_homog(m) for m in tc["members"]] + [mt.WithDims(_wd_dims(tc["wd"]))])
+    if kind in RBF_KINDS:
+        return getattr(rbf, kind)(gen.arr(tc["c"]))
     return objs.build_transform(tc)
+
+
+def _slices(d):
+    """Every [start, stop, step] that selects at least one of d columns."""
+    out = []
+    for a in [None] + list(range(-d, d)):
+        for b in [None] + list(range(-d, d + 1)):
+            for s in (None, 1, 2, -1):
+                if len(list(range(d))[slice(a, b, s)]) >= 1:
+                    out.append([a, b, s])
+    return out
+
+
+@st.composite
+def s_withdims(draw, d):
+    form = draw(st.sampled_from(["list", "int", "mask", "slice", "slice"]))
+    if form == "list":
+        dims = draw(st.lists(st.integers(0, d - 1), min_size=1, max_size=d, unique=True))
+    elif form == "int":
+        dims = draw(st.integers(-d, d - 1))
+    elif form == "mask":
+        dims = draw(st.lists(st.booleans(), min_size=d, max_size=d))
+        dims[draw(st.integers(0, d - 1))] = True
+    else:
+        dims = draw(st.sampled_from(_slices(d)))
+    return {"kind": "WithDims", "d": d, "form": form, "dims": dims}
 
 
 @st.composite
 def s_tcase(draw):
-    if draw(st.booleans()):
+    cat = draw(st.sampled_from(["pwa"] * 9 + ["homog"] * 4 + ["tps"] * 2 + ["rbf", "withdims", "withdims", "chain", "chain_wd"]))
+    if cat == "pwa":
         kind = draw(st.sampled_from(PWA_KINDS))
         c = draw(objs.warp_case(kind="CachedPWA" if kind != "PythonPWA" else "PythonPWA"))
         c["kind"] = kind
+        # an explicit TriMesh source: the Delaunay triangulation with some triangles removed (hole / notch / pieces)
+        if draw(st.integers(0, 4)) < 2:
+            c["drop"] = draw(st.lists(st.integers(0, 63), min_size=1, max_size=3))
         return c
-    return draw(objs.transform_case(kinds=objs.HOMOG_KINDS + ["TransformChain", "WithDims", "ThinPlateSplines"]))
+    if cat == "homog":
+        return draw(objs.transform_case(kinds=objs.HOMOG_KINDS))
+    if cat == "tps":
+        return draw(objs.warp_case(kind="ThinPlateSplines"))
+    d = draw(st.sampled_from([2, 3]))
+    if cat == "rbf":
+        n = draw(st.integers(1, 6))
+        return {"kind": draw(st.sampled_from(RBF_KINDS)), "d": d, "c": draw(gen.points_case(n=n, d=d))}
+    if cat == "withdims":
+        return draw(s_withdims(d))
+    members = [draw(objs.homog_case(d=d)) for _ in range(draw(st.integers(1, 3)))]
+    if cat == "chain":
+        return {"kind": "TransformChain", "d": d, "members": members}
+    return {"kind": "ChainWithDims", "d": d, "members": members, "wd": draw(s_withdims(d))}
 
 
 def _pts_spec(draw, tc, n_min=1, n_max=7):
     n = draw(st.integers(n_min, n_max))
     if tc["kind"] in PWA_KINDS:
         return {"bary": draw(objs.bary_picks(n, n))}
-    return {"xy": draw(st.lists(gen.vec(tc["d"], -10, 10), min_size=n, max_size=n))}
+    spec = {"xy": draw(st.lists(gen.vec(tc["d"], -10, 10), min_size=n, max_size=n))}
+    if tc["kind"] in RBF_KINDS and n:
+        # rows that coincide with a centre (the kernel's singular point)
+        spec["at_centre"] = draw(st.lists(st.tuples(st.integers(0, 31), st.integers(0, 31)).map(list), max_size=2))
+    return spec
+
+
+def _materialise(tc, trilist, spec):
+    if "bary" in spec:
+        return np.asarray(objs.bary_points(tc["src"], trilist, spec["bary"]), dtype=float).reshape(-1, 2)
+    x = gen.arr(spec["xy"]).reshape(-1, tc["d"])
+    for r, j in spec.get("at_centre") or []:
+        if x.shape[0]:
+            x[r % x.shape[0]] = gen.arr(tc["c"])[j % len(tc["c"])]
+    return x
 
 
 DELTAS = [1e-12, 1e-9, 1e-6, 1e-3, 1.0]
+BATCHES = ["1", "2", "3", "n-1", "n", "n+1", "2n+1"]
+REPRS = ["float64", "float32", "int64", "int32", "fortran", "strided", "negstride"]
 
 
 @st.composite
@@ -118,7 +285,7 @@ def s_history(draw):
     pwa = tc["kind"] in PWA_KINDS
     steps = [["apply_new", _pts_spec(draw, tc, 2, 7)]]
     n_steps = draw(st.integers(3, 12))
-    kinds = ["apply_new", "apply_again", "mutate_apply", "apply_near", "apply_shape", "apply_batched"]
+    kinds = ["apply_new", "apply_again", "mutate_apply", "mutate_apply", "apply_near", "apply_shape", "apply_batched", "apply_lm_shape", "apply_recast"]
     if pwa:
         kinds += ["apply_mixed", "apply_mixed"]
     for _ in range(n_steps - 1):
@@ -131,12 +298,30 @@ def s_history(draw):
             dl = draw(st.sampled_from(DELTAS[:4] if pwa else DELTAS))
             steps.append([k, draw(st.integers(0, 31)), draw(st.integers(0, 31)), draw(st.integers(0, 2)), dl * draw(st.sampled_from([1, -1]))])
         elif k == "apply_batched":
-            steps.append([k, draw(st.integers(0, 31)), draw(st.sampled_from(["1", "2", "3", "n-1", "n", "n+1", "2n+1"]))])
+            steps.append([k, draw(st.integers(0, 31)), draw(st.sampled_from(BATCHES))])
+        elif k == "apply_lm_shape":
+            # a shape carrying 1-2 landmark groups of the same size whose coordinates are those of the shape up to one
+            # perturbed entry: ONE public apply makes several _apply calls on nearly equal arrays
+            ng = draw(st.integers(1, 2))
+            groups = [[draw(st.integers(0, 31)), draw(st.integers(0, 2)), draw(st.sampled_from(DELTAS[:4] if pwa else DELTAS)) * draw(st.sampled_from([1, -1, 0]))]
+                      for _ in range(ng)]
+            steps.append([k, draw(st.integers(0, 31)), {"cls": draw(st.sampled_from(["PointCloud", "TriMesh", "LandmarkManager"])), "groups": groups,
+                                                        "bs": draw(st.sampled_from(["none", "none"] + BATCHES))}])
+        elif k == "apply_recast":
+            # the same VALUES in 2-3 representations (dtype / memory layout), one after the other
+            steps.append([k, draw(st.integers(0, 31)), draw(st.lists(st.sampled_from(REPRS), min_size=2, max_size=3)),
+                          draw(st.lists(st.integers(0, 255), min_size=7, max_size=7))])
         else:
-            # positions (among n+m) that are outside; directions of the outside points
+            # positions (among n+m) that are outside; a far point (direction) or, when the source mesh has removed
+            # triangles, a point inside one of those (inside the hull, outside the domain); possibly NO inside point
             n_out = draw(st.integers(1, 3))
-            steps.append([k, _pts_spec(draw, tc, 1, 6), draw(st.lists(st.tuples(st.integers(0, 31), gen.q(-3.14, 3.14)).map(list), min_size=n_out, max_size=n_out)),
-                          draw(st.sampled_from(["none", "1", "2", "3", "n-1", "n", "n+1", "2n+1"]))])
+            outs = []
+            for _o in range(n_out):
+                o = [draw(st.integers(0, 31)), draw(gen.q(-3.14, 3.14))]
+                if tc.get("drop") and draw(st.booleans()):
+                    o.append(draw(objs.bary_picks(1, 1))[0])
+                outs.append(o)
+            steps.append([k, _pts_spec(draw, tc, 0, 6), outs, draw(st.sampled_from(["none"] + BATCHES))])
     return {"t": tc, "steps": steps}
 
 
@@ -149,65 +334,122 @@ def _bs(spec, n):
     return max(1, v)
 
 
+def _recast(v, name):
+    """The values of the float64 array v in another dtype / memory layout."""
+    if name == "float64":
+        return v.copy()
+    if name in ("float32", "int64", "int32"):
+        return v.astype(name)
+    if name == "fortran":
+        return np.asfortranarray(v)
+    if name == "strided":
+        big = np.full((2 * v.shape[0], v.shape[1] + 1), 7.5)
+        big[::2, : v.shape[1]] = v
+        return big[::2, : v.shape[1]]
+    rev = np.array(v[::-1])
+    return rev[::-1]
+
+
 def c_history(case, ctx):
+    from menpo.shape import TriMesh
+
     tc = case["t"]
-    pwa = tc["kind"] in PWA_KINDS
-    ctx.event("transform=%s" % tc["kind"])
+    kind = tc["kind"]
+    pwa = kind in PWA_KINDS
+    ctx.event("transform=%s" % kind + (" (TriMesh source, triangles removed)" if tc.get("drop") else ""))
+    if kind == "WithDims":
+        ctx.event("WithDims dims=%s" % tc["form"])
     t = _build(tc)
     d_t = digest.digest(t, skip=_CACHE)
     trilist = np.array(t.trilist) if pwa else None
+    dropped = _split_trilist(tc)[1] if pwa and tc.get("drop") else None
     extent = float(np.ptp(gen.arr(tc["src"]), axis=0).max()) if pwa else 10.0
     centroid = gen.arr(tc["src"]).mean(axis=0) if pwa else None
     pool = []  # arrays passed so far (the very objects)
+    results = []  # every array apply() handed back so far, with a snapshot of its values and the array it was given
     n_apply = 0
     reused = False
 
     def materialise(spec):
-        if "bary" in spec:
-            return objs.bary_points(tc["src"], trilist, spec["bary"])
-        return gen.arr(spec["xy"])
+        return _materialise(tc, trilist, spec)
 
     ref_tol = [1e-9]
 
     def reference(x):
-        """History-free expected output for the CURRENT values of x."""
-        ref_tol[0] = 1e-9
-        fresh = _build(tc).apply(np.array(x, dtype=float, copy=True))
-        if tc["kind"] in objs.HOMOG_KINDS:
+        """History-free expected output for the CURRENT values of x: (explicit reference, fresh instance)."""
+        ref_tol[0] = 1e-9 if x.dtype != np.float32 else 1e-5
+        fresh = _build(tc).apply(np.array(x, copy=True))
+        xv = np.asarray(x, dtype=float)
+        if kind in objs.HOMOG_KINDS:
             h = objs.ref_h(tc)
             if h is None:
                 h = _build(tc).h_matrix.copy()
-            exp = objs.ref_apply_h(h, x)
-            ctx.expect(close(fresh, exp, atol=1e-9 * (1 + np.abs(exp).max())), "fresh_instance_vs_explicit_reference", lambda: describe(fresh, exp))
+            exp = objs.ref_apply_h(h, xv)
+            ctx.expect(close(fresh, exp, rtol=0, atol=ref_tol[0] * (1 + np.abs(exp).max())), "fresh_instance_vs_explicit_reference", lambda: describe(fresh, exp))
             return exp, fresh
         if pwa:
-            exp, outside = pwa_reference(tc["src"], tc["tgt"], trilist, x)
+            exp, outside = pwa_reference(tc["src"], tc["tgt"], trilist, xv)
             ref_tol[0] = 1e-9 + 1e-12 * _LAST_PWA_COND[0]
             if _LAST_PWA_COND[0] > 1e3:
                 ctx.event("sliver triangle (edge-matrix condition > 1e3): reference tolerance widened")
             if not outside.any():
                 ctx.expect(close(fresh, exp, rtol=0, atol=ref_tol[0] * (1 + np.abs(exp).max())), "fresh_instance_vs_barycentric_reference", lambda: describe(fresh, exp))
             return exp, fresh
+        if kind == "WithDims":
+            exp = _select_cols(x, _wd_cols(tc))
+            ctx.expect(np.shape(fresh) == exp.shape and np.array_equal(fresh, exp), "withdims.fresh_instance_vs_column_selection", lambda: describe(fresh, exp))
+            return exp, fresh
+        if kind == "ChainWithDims":
+            import menpo.transform as mt
+
+            exp = _select_cols(mt.TransformChain([objs.build_homog(m) for m in tc["members"]]).apply(np.array(xv, copy=True)), _wd_cols(tc["wd"]))
+            ctx.expect(close(fresh, exp, rtol=0, atol=ref_tol[0] * (1 + (np.abs(exp).max() if exp.size else 0.0))), "chain_withdims.fresh_instance_vs_column_selection",
+                       lambda: describe(fresh, exp))
+            return exp, fresh
+        if kind in RBF_KINDS:
+            exp = _rbf_reference(kind, tc["c"], xv)
+            ctx.expect(close(fresh, exp, rtol=0, atol=ref_tol[0] * (1 + (np.abs(exp).max() if exp.size else 0.0))), "rbf.fresh_instance_vs_kernel_formula",
+                       lambda: describe(fresh, exp))
+            return exp, fresh
         return fresh, fresh
+
+    def judge(got, x, what, batch):
+        """got (an array handed back for the values of x) against the history-free expectations."""
+        want, fresh = reference(x)
+        scale = 1.0 + (float(np.abs(want).max()) if np.size(want) else 0.0)
+        ctx.expect(close(got, want, rtol=0, atol=ref_tol[0] * scale), what, lambda: "step result differs from the history-free reference\n" + describe(got, want))
+        # the same code on a fresh instance (no history) and the same values: equal to rounding noise, so that
+        # even a 1e-12 perturbation of the input must show up in the output (batched: summation order may differ)
+        ctx.expect(close(got, fresh, rtol=0, atol=(2e-15 if batch is None else 1e-12) * scale), what + ".vs_fresh_instance",
+                   lambda: "differs from a fresh instance applied to the same values\n" + describe(got, fresh))
+
+    def keep(got, x, what):
+        """Remember an array apply() handed back: it belongs to the caller from now on."""
+        got = np.asarray(got)
+        if x is not None:
+            ctx.expect(not np.shares_memory(got, x), "result_aliases_argument", what)
+        for r in results:
+            if not ctx.expect(not np.shares_memory(got, r["res"]), "results_of_two_applies_share_memory", "%s and the earlier %s" % (what, r["what"])):
+                break
+        results.append({"res": got, "snap": np.array(got, copy=True), "x": x, "what": what})
+
+    def earlier_results_intact(after):
+        for r in results:
+            if not ctx.expect(r["res"].shape == r["snap"].shape and np.array_equal(r["res"], r["snap"], equal_nan=True), "earlier_result_changed",
+                              lambda: "the array returned by '%s' changed after '%s'\n%s" % (r["what"], after, describe(r["res"], r["snap"]))):
+                r["snap"] = np.array(r["res"], copy=True)
 
     def do_apply(x, what, batch=None, as_shape=False):
         nonlocal n_apply
         before = x.copy()
-        want, fresh = reference(x)
         if as_shape:
             got = t.apply(PointCloud(x), batch_size=batch).points
         else:
             got = t.apply(x, batch_size=batch)
         n_apply += 1
-        scale = 1.0 + (float(np.abs(want).max()) if want.size else 0.0)
-        ctx.expect(close(got, want, rtol=0, atol=ref_tol[0] * scale), what, lambda: "step result differs from the history-free reference\n" + describe(got, want))
-        if batch is None:
-            # the same code on a fresh instance (no history) and the same values: equal to rounding noise, so that
-            # even a 1e-12 perturbation of the input must show up in the output
-            ctx.expect(close(got, fresh, rtol=0, atol=2e-15 * scale), what + ".vs_fresh_instance",
-                       lambda: "differs from a fresh instance applied to the same values\n" + describe(got, fresh))
+        judge(got, x, what, batch)
         ctx.expect(np.array_equal(before, x), "argument_mutated", what)
-        ctx.expect(not np.shares_memory(got, x) or tc["kind"] == "WithDims", "result_aliases_argument", what)
+        keep(got, x, what)
         return got
 
     for step in case["steps"]:
@@ -235,6 +477,8 @@ def c_history(case, ctx):
                 continue
             reused = True
             ctx.event("delta=%g" % abs(step[4]))
+            # what earlier applies handed back must not follow the edit of the array they were given
+            earlier_results_intact("in-place edit of an array passed earlier")
             do_apply(x, "apply_after_inplace_edit")
         elif k == "apply_near":
             x = pool[step[1] % len(pool)].copy()
@@ -253,24 +497,97 @@ def c_history(case, ctx):
             bs = _bs(step[2], n)
             ctx.event("batch divides" if n % bs == 0 else "batch does not divide")
             do_apply(x, "apply_batched", batch=bs)
+        elif k == "apply_lm_shape":
+            x = pool[step[1] % len(pool)]
+            spec = step[2]
+            n, d = x.shape
+            groups = []
+            for r, cidx, dl in spec["groups"]:
+                g = x.copy()
+                g[r % n, cidx % d] += dl
+                groups.append(g)
+            if pwa and not all(pwa_safely_inside(tc["src"], trilist, g).all() for g in groups):
+                ctx.event("perturbation leaves the domain: skipped")
+                continue
+            cls = spec["cls"]
+            if cls != "PointCloud" and n >= 3:
+                shape = TriMesh(x, trilist=np.array([[0, 1, 2]] + ([[1, 3, 2]] if n >= 4 else [])))
+            else:
+                shape = PointCloud(x)
+            for i, g in enumerate(groups):
+                shape.landmarks["g%d" % i] = PointCloud(g)
+            bs = _bs(spec["bs"], n)
+            ctx.event("landmarked %s" % (cls if cls == "LandmarkManager" else type(shape).__name__))
+            ctx.event("landmarked, %d group(s), %s" % (len(groups), "unbatched" if bs is None else "batched"))
+            out = t.apply(shape.landmarks if cls == "LandmarkManager" else shape, batch_size=bs)
+            n_apply += 1
+            reused = True
+            out_lms = out if cls == "LandmarkManager" else out.landmarks
+            if cls != "LandmarkManager":
+                if ctx.expect(type(out) is type(shape), "apply_landmarked_shape.result_type", "%s for a %s" % (type(out).__name__, type(shape).__name__)):
+                    judge(out.points, x, "apply_landmarked_shape.points", bs)
+                    keep(out.points, None, "apply_landmarked_shape.points")
+            if ctx.expect(sorted(out_lms.group_labels) == sorted("g%d" % i for i in range(len(groups))), "apply_landmarked_shape.groups_lost", lambda: repr(list(out_lms.group_labels))):
+                for i, g in enumerate(groups):
+                    judge(out_lms["g%d" % i].points, g, "apply_landmarked_shape.landmark_group", bs)
+                    keep(out_lms["g%d" % i].points, None, "apply_landmarked_shape.landmark_group")
+            same = np.array_equal(shape.points, x) and all(np.array_equal(shape.landmarks["g%d" % i].points, g) for i, g in enumerate(groups))
+            ctx.expect(same, "argument_mutated", "apply_landmarked_shape: the shape passed in (points or landmarks) changed")
+        elif k == "apply_recast":
+            base = pool[step[1] % len(pool)]
+            names = step[2]
+            ints = any(nm.startswith("int") for nm in names)
+            if ints and pwa:
+                # integer points of the domain: the lattice points that lie inside it with a margin
+                lo, hi = np.floor(gen.arr(tc["src"]).min(axis=0)), np.ceil(gen.arr(tc["src"]).max(axis=0))
+                lat = np.array([[i, j] for i in np.arange(lo[0], hi[0] + 1) for j in np.arange(lo[1], hi[1] + 1)], dtype=float)
+                lat = lat[mesh_bary_min(tc["src"], trilist, lat) >= 1e-6]
+                if not len(lat):
+                    ctx.event("no integer point inside the domain: skipped")
+                    continue
+                v = np.array([lat[j % len(lat)] for j in step[3][: base.shape[0]]])
+            elif ints:
+                v = np.round(base)
+            elif "float32" in names:
+                v = base.astype(np.float32).astype(float)
+                if pwa and not (mesh_bary_min(tc["src"], trilist, v) >= 1e-6).all():
+                    ctx.event("float32 rounding leaves the safe interior: skipped")
+                    continue
+            else:
+                v = base.copy()
+            reused = True
+            for nm in names:
+                ctx.event("repr=%s" % nm)
+                do_apply(_recast(v, nm), "apply_same_values_other_dtype_or_layout")
         elif k == "apply_mixed":
             inside = materialise(step[1])
             pts = [p for p in inside]
             is_out = [False] * len(pts)
-            for pos, ang in step[2]:
-                far = centroid + 3.0 * extent * np.array([np.cos(ang), np.sin(ang)])
+            holes = 0
+            for o in step[2]:
+                pos, ang = o[0], o[1]
+                if len(o) > 2 and dropped is not None and len(dropped):
+                    far = objs.bary_points(tc["src"], dropped, [o[2]])[0]
+                    holes += 1
+                else:
+                    far = centroid + 3.0 * extent * np.array([np.cos(ang), np.sin(ang)])
                 j = pos % (len(pts) + 1)
                 pts.insert(j, far)
                 is_out.insert(j, True)
             x = np.array(pts)
             is_out = np.array(is_out)
             n = x.shape[0]
+            if holes and not (mesh_bary_min(tc["src"], trilist, x[is_out]) <= -1e-9).all():
+                ctx.event("hole point within rounding of a kept triangle: skipped")
+                continue
             bs = _bs(step[3], n)
             ctx.event("mixed batch=%s" % step[3])
+            ctx.event("mixed: %s" % ("no inside point" if is_out.all() else "inside and outside points") + (", outside point in a removed triangle" if holes else ""))
             before = x.copy()
             try:
                 t.apply(x, batch_size=bs)
-                ctx.fail("out_of_domain.no_error", "points 3 extents outside the source hull were mapped without TriangleContainmentError")
+                ctx.fail("out_of_domain.no_error", "points %s were mapped without TriangleContainmentError"
+                         % ("inside a removed triangle of the source mesh" if holes else "3 extents outside the source hull"))
             except TriangleContainmentError as e:
                 m = np.asarray(e.points_outside_source_domain)
                 ok_len = m.ndim == 1 and m.shape[0] == n
@@ -295,8 +612,17 @@ def c_history(case, ctx):
             # a failed application must not poison later ones
             if pool:
                 do_apply(pool[0], "apply_after_failed_apply")
+        earlier_results_intact(k)
     dd = digest.parameter_mutation(d_t, digest.digest(t, skip=_CACHE))
     ctx.expect(dd is None, "transform_parameters_changed", lambda: repr(dd))
+    # what apply() returned is the caller's: writing into it must not reach the array that was passed
+    for r in results:
+        if r["x"] is None or not r["res"].flags.writeable or r["res"].size == 0:
+            continue
+        xs = r["x"].copy()
+        r["res"][...] = r["res"] + 1
+        if not ctx.expect(np.array_equal(r["x"], xs), "writing_into_result_changes_argument", r["what"]):
+            break
     ctx.nontrivial(n_apply >= 3 and reused)
 
 
@@ -313,10 +639,7 @@ def c_batch(case, ctx):
     tc = case["t"]
     t = _build(tc)
     ctx.event("transform=%s" % tc["kind"])
-    if "bary" in case["pts"]:
-        x = objs.bary_points(tc["src"], np.array(t.trilist), case["pts"]["bary"])
-    else:
-        x = gen.arr(case["pts"]["xy"])
+    x = _materialise(tc, np.array(t.trilist) if tc["kind"] in PWA_KINDS else None, case["pts"])
     # input arrays of other dtypes (integer pixel indices, float32) are legal inputs: values are rounded so that
     # they are exactly representable; for piecewise affine the points stay the in-domain float64 ones
     dt = case.get("dtype", "float64")
@@ -332,6 +655,9 @@ def c_batch(case, ctx):
         got = t.apply(PointCloud(x), batch_size=bs).points
     else:
         got = t.apply(x, batch_size=bs)
+    if tc["kind"] in RBF_KINDS:
+        # a radial basis is a Transform too: one output column per centre
+        ctx.expect(np.shape(got) == (n, len(tc["c"])), "rbf.output_shape", "%r for %d points and %d centres" % (np.shape(got), n, len(tc["c"])))
     ctx.expect(close(got, plain, rtol=0, atol=1e-12 * (1 + np.abs(plain).max())), "batched_differs_from_unbatched",
                lambda: "batch_size=%d n=%d input dtype %s\n%s" % (bs, n, x.dtype, describe(got, plain)))
     # and both agree with the float64 evaluation of the same values (the input dtype must not leak into the result)
@@ -347,21 +673,95 @@ def s_constrain(draw):
     shape = draw(st.lists(st.integers(4, 14), min_size=2, max_size=2))
     n = draw(st.integers(3, 7))
     fr = draw(st.lists(st.lists(gen.q(0.03, 0.97, 997), min_size=2, max_size=2), min_size=n, max_size=n, unique_by=lambda r: tuple(r)))
-    return {"shape": shape, "fr": fr, "ks": draw(st.lists(st.sampled_from([1, 2, 3, 5, 7, 11, 50, 1000]), min_size=2, max_size=3, unique=True))}
+    case = {"shape": shape, "fr": fr, "ks": draw(st.lists(st.sampled_from([1, 2, 3, 5, 7, 11, 50, 1000]), min_size=2, max_size=3, unique=True))}
+    # what is constrained to: a PointCloud (Delaunay), a TriMesh = that triangulation with triangles removed, or a
+    # TriMesh on an integer lattice (pixel centres ON its vertices and edges) with triangles removed
+    case["src"] = draw(st.sampled_from(["cloud", "cloud", "mesh_drop", "grid"]))
+    if case["src"] == "mesh_drop":
+        case["drop"] = draw(st.lists(st.integers(0, 63), min_size=1, max_size=3))
+    elif case["src"] == "grid":
+        g = draw(s_gridmesh(rmax=3))
+        g["xs"] = sorted(draw(st.lists(st.integers(0, shape[0] - 1), min_size=g["r"], max_size=g["r"], unique=True)))
+        g["ys"] = sorted(draw(st.lists(st.integers(0, shape[1] - 1), min_size=g["c"], max_size=g["c"], unique=True)))
+        case["grid"] = g
+    case["api"] = draw(st.sampled_from(["pointcloud", "pointcloud", "landmarks", "masked"]))
+    case["group"] = draw(st.booleans())
+    case["start"] = draw(st.sampled_from(["blank", "blank", "random"]))
+    case["seed"] = draw(st.integers(0, 10 ** 6))
+    return case
 
 
 def c_constrain(case, ctx):
+    from menpo.image import MaskedImage
+    from menpo.shape import TriMesh
+
     shape = tuple(case["shape"])
-    pts = gen.arr(case["fr"]) * (np.array(shape) - 1) + 0.013
-    if not gen.non_collinear(pts, 1e-2):
-        return
-    pc = PointCloud(pts)
-    base = BooleanImage.init_blank(shape).constrain_to_pointcloud(pc)
-    ctx.nontrivial(bool(base.pixels.any()) and not bool(base.pixels.all()))
+    src = case.get("src", "cloud")
+    kept = None
+    if src == "grid":
+        pts, kept, _gone = _grid_mesh(case["grid"])
+        pc = TriMesh(pts, trilist=kept)
+    else:
+        pts = gen.arr(case["fr"]) * (np.array(shape) - 1) + 0.013
+        if not gen.non_collinear(pts, 1e-2):
+            return
+        if src == "mesh_drop":
+            kept = _split_trilist({"src": pts.tolist(), "drop": case["drop"]})[0]
+            pc = TriMesh(pts, trilist=kept)
+        else:
+            pc = PointCloud(pts)
+    api, start = case.get("api", "pointcloud"), case.get("start", "blank")
+    ctx.event("constrained to: %s" % src)
+    ctx.event("api=%s start=%s" % (api, start))
+    group = "lm" if case.get("group") else None
+
+    def run(k):
+        """The constrained mask (a fresh image every time) for batch size k (None: the argument is not passed)."""
+        kw = {} if k is None else {"batch_size": k}
+        m0 = np.ones(shape, dtype=bool) if start == "blank" else np.random.RandomState(case["seed"]).rand(*shape) < 0.6
+        if api == "masked":
+            img = MaskedImage(np.random.RandomState(case["seed"] + 1).rand(2, *shape), mask=m0.copy())
+            img.landmarks["lm"] = pc
+            px = img.pixels.copy()
+            out = img.constrain_mask_to_landmarks(group=group, **kw)
+            ctx.expect(np.array_equal(img.mask.pixels[0], m0) and np.array_equal(img.pixels, px), "constrain.original_image_modified", api)
+            ctx.expect(np.array_equal(out.pixels, px), "constrain.masked_image_pixels_changed", "constrain_mask_to_landmarks changed pixel values")
+            return out.mask.pixels.copy()
+        img = BooleanImage(m0.copy())
+        if api == "landmarks":
+            img.landmarks["lm"] = pc
+            out = img.constrain_to_landmarks(group=group, **kw)
+        else:
+            out = img.constrain_to_pointcloud(pc, **kw)
+        ctx.expect(np.array_equal(img.pixels[0], m0), "constrain.original_image_modified", api)
+        return out.pixels.copy()
+
+    sig = {"pointcloud": "constrain_to_pointcloud", "landmarks": "constrain_to_landmarks", "masked": "constrain_mask_to_landmarks"}[api]
+    base_px = run(None)
+    ctx.nontrivial(bool(base_px.any()) and not bool(base_px.all()))
     for k in case["ks"]:
-        r = BooleanImage.init_blank(shape).constrain_to_pointcloud(pc, batch_size=k)
-        ctx.expect(np.array_equal(r.pixels, base.pixels), "constrain_to_pointcloud.batch_size_changes_mask",
-                   "batch_size=%d: %d pixels differ" % (k, int((r.pixels != base.pixels).sum())))
+        r_px = run(k)
+        ctx.expect(r_px.shape == base_px.shape and np.array_equal(r_px, base_px), sig + ".batch_size_changes_mask",
+                   lambda: "batch_size=%d: %d pixels differ" % (k, int((r_px != base_px).sum()) if r_px.shape == base_px.shape else -1))
+    if start != "blank":
+        # how the previous content combines with the region is not stated: only batch-size independence is judged
+        return
+    idx = np.indices(shape).reshape(2, -1).T.astype(float)
+    got = base_px[0].reshape(-1)
+    if kept is not None:
+        # explicit triangulation: a pixel is kept iff it lies in one of the LISTED triangles (so not in a removed one).
+        # Pixels within rounding of a triangle boundary are not judged (on the integer lattice: exactly on it)
+        worst = max([float(np.linalg.cond(np.array([pts[t_[1]] - pts[t_[0]], pts[t_[2]] - pts[t_[0]]]))) for t_ in kept])
+        if worst > 100:
+            ctx.event("sliver triangle in the mesh: membership reference not applied")
+            return
+        bm = mesh_bary_min(pts, kept, idx)
+        margin = 0.0 if src == "grid" else 1e-6
+        ctx.event("mesh reference: %s" % ("pixels in removed/uncovered part of the bounding box" if (bm < -margin).any() else "no outside pixel"))
+        ctx.expect(np.all(got[bm > margin]), sig + ".mesh_interior_pixel_false", lambda: "%d pixels strictly inside a listed triangle are False" % int((~got[bm > margin]).sum()))
+        ctx.expect(not np.any(got[bm < -margin]), sig + ".pixel_outside_every_listed_triangle_true",
+                   lambda: "%d pixels outside every listed triangle are True" % int(got[bm < -margin].sum()))
+        return
     # reference: pixel inside the convex hull (half-plane test on the hull), ties excluded. Only for well-shaped clouds:
     # in a thin cloud the Delaunay triangles are slivers whose barycentric test is decided by rounding (the property
     # only promises batch-size independence, which was checked above for every cloud)
@@ -371,7 +771,6 @@ def c_constrain(case, ctx):
     from scipy.spatial import ConvexHull
 
     hull = ConvexHull(pts)
-    idx = np.indices(shape).reshape(2, -1).T.astype(float)
     val = idx.dot(hull.equations[:, :2].T) + hull.equations[:, 2]
     inside = np.all(val <= -1e-7, axis=1)
     clearly_out = np.any(val >= 1e-7, axis=1)
@@ -387,9 +786,8 @@ def c_constrain(case, ctx):
             dist = np.linalg.norm(idx - (a + tpar[:, None] * ab), axis=1)
             on_edge |= dist < 1e-6
     inside &= ~on_edge
-    got = base.pixels[0].reshape(-1)
-    ctx.expect(np.all(got[inside]), "constrain_to_pointcloud.inside_pixel_false", "%d hull-interior pixels are False" % int((~got[inside]).sum()))
-    ctx.expect(not np.any(got[clearly_out]), "constrain_to_pointcloud.outside_pixel_true", "%d outside pixels are True" % int(got[clearly_out].sum()))
+    ctx.expect(np.all(got[inside]), sig + ".inside_pixel_false", "%d hull-interior pixels are False" % int((~got[inside]).sum()))
+    ctx.expect(not np.any(got[clearly_out]), sig + ".outside_pixel_true", "%d outside pixels are True" % int(got[clearly_out].sum()))
 
 
 # ------------------------------------------------------------------------------------------ boundary points
@@ -562,6 +960,184 @@ def c_composite(case, ctx):
     ctx.expect(dd is None, "composite.transform_parameters_changed", lambda: repr(dd))
 
 
+# ------------------------------------------------------------------------------------------ explicit meshes, points ON the mesh
+MESH_FORMS = ("direct", "direct", "chain_pre", "compose_before", "chain_post", "chain_pre_post", "nested")
+# dyadic barycentric weights (eighths) of points strictly inside a triangle
+_W8 = [(2, 2, 4), (4, 2, 2), (2, 4, 2), (1, 1, 6), (6, 1, 1), (1, 6, 1), (3, 3, 2), (2, 3, 3)]
+
+
+@st.composite
+def s_gridmesh(draw, rmax=4):
+    """A triangulated r x c lattice (each cell cut along one of its diagonals, vertex order of each triangle rotated) in
+    integer coordinates - the lattice is mapped by an integer matrix of non-zero determinant and shifted by integers -
+    from which a subset of the triangles is REMOVED (holes, notches, separate pieces), and to which up to two kept
+    triangles may be appended a second time."""
+    r, c = draw(st.integers(2, rmax)), draw(st.integers(2, rmax))
+    ntri = 2 * (r - 1) * (c - 1)
+    a = draw(st.lists(st.lists(st.integers(-4, 4), min_size=2, max_size=2), min_size=2, max_size=2))
+    if a[0][0] * a[1][1] - a[0][1] * a[1][0] == 0:
+        a = [[a[0][0] + 5, a[0][1]], [a[1][0], a[1][1] + 5]] if (a[0][0] + 5) * (a[1][1] + 5) - a[0][1] * a[1][0] != 0 else [[1, 0], [0, 1]]
+    return {
+        "r": r, "c": c, "A": a, "off": draw(st.lists(st.integers(-20, 20), min_size=2, max_size=2)),
+        "diag": draw(st.lists(st.booleans(), min_size=ntri // 2, max_size=ntri // 2)),
+        "rot": draw(st.lists(st.integers(0, 2), min_size=ntri, max_size=ntri)),
+        "keep": draw(st.lists(st.sampled_from([True, True, False]), min_size=ntri, max_size=ntri)), "keep1": draw(st.integers(0, 63)),
+        "dup": draw(st.lists(st.tuples(st.integers(0, 63), st.integers(0, 2)).map(list), max_size=2)) if draw(st.integers(0, 3)) == 0 else [],
+    }
+
+
+def _grid_mesh(g):
+    """(vertices, kept triangles [with the repeated ones], removed triangles) of a s_gridmesh case; the lattice lines may
+    instead be given explicitly ("xs", "ys": increasing integers)."""
+    r, c = g["r"], g["c"]
+    if "xs" in g:
+        v = np.array([[g["xs"][i], g["ys"][j]] for i in range(r) for j in range(c)], dtype=float)
+    else:
+        v = (np.array([[i, j] for i in range(r) for j in range(c)]).dot(np.array(g["A"]).T) + np.array(g["off"])).astype(float)
+    tris = []
+    cell = 0
+    for i in range(r - 1):
+        for j in range(c - 1):
+            p, q_, s_, u = i * c + j, i * c + j + 1, (i + 1) * c + j, (i + 1) * c + j + 1
+            for tri in ([[p, q_, s_], [q_, u, s_]] if g["diag"][cell] else [[p, q_, u], [p, u, s_]]):
+                k = g["rot"][len(tris)]
+                tris.append(tri[k:] + tri[:k])
+            cell += 1
+    tris = np.array(tris)
+    keep = np.array(g["keep"], dtype=bool)
+    keep[g["keep1"] % len(tris)] = True
+    kept = [list(t_) for t_ in tris[keep]]
+    for idx, k in g.get("dup") or []:
+        tri = kept[idx % int(keep.sum())]
+        kept.append(tri[k:] + tri[:k])
+    return v, np.array(kept), tris[~keep]
+
+
+@st.composite
+def s_mesh(draw):
+    g = draw(s_gridmesh())
+    npts = draw(st.integers(1, 8))
+    pts = []
+    for _ in range(npts):
+        what = draw(st.sampled_from(["vertex", "vertex", "midpoint", "midpoint", "interior", "hole", "far", "far"]))
+        pts.append([what, draw(st.integers(0, 63)), draw(st.integers(0, 7)), draw(st.sampled_from([1, 2, 7]))])
+    m = draw(st.lists(st.lists(st.integers(-3, 3), min_size=2, max_size=2), min_size=2, max_size=2))
+    return {
+        "g": g, "pts": pts, "member": draw(st.sampled_from(PWA_KINDS)), "form": draw(st.sampled_from(MESH_FORMS)),
+        "pre": draw(st.one_of(st.tuples(st.just("t"), st.integers(-9, 9), st.integers(-9, 9)), st.tuples(st.just("s"), st.sampled_from([-2, -1, 1, 2]), st.just(0))).map(list)),
+        "post": draw(objs.homog_case(d=2, kinds=["Translation", "Affine", "NonUniformScale"])),
+        "tm": m, "tt": draw(st.lists(st.integers(-9, 9), min_size=2, max_size=2)),
+        "tn": draw(st.lists(st.lists(gen.q(-0.25, 0.25, 64), min_size=2, max_size=2), min_size=16, max_size=16)),
+        "ks": draw(st.lists(st.sampled_from(BATCHES), min_size=1, max_size=3, unique=True)),
+    }
+
+
+def _mesh_points(case, v, kept, gone):
+    """The points (what reaches the piecewise-affine member), which of them are outside the mesh, and how many of the
+    inside ones lie in more than one triangle (a shared edge / vertex, a repeated triangle)."""
+    lo, hi = v.min(axis=0), v.max(axis=0)
+    out, flags = [], []
+    for what, k, j, dist in case["pts"]:
+        if what == "hole" and not len(gone):
+            what = "far"
+        if what == "vertex":
+            out.append(v[kept[k % len(kept)][j % 3]].copy())
+        elif what == "midpoint":
+            tri = kept[k % len(kept)]
+            out.append((v[tri[j % 3]] + v[tri[(j + 1) % 3]]) / 2.0)
+        elif what in ("interior", "hole"):
+            tri = (kept if what == "interior" else gone)[k % len(kept if what == "interior" else gone)]
+            w = _W8[j % len(_W8)]
+            out.append((w[0] * v[tri[0]] + w[1] * v[tri[1]] + w[2] * v[tri[2]]) / 8.0)
+        else:  # beyond the bounding box of all the vertices, by dist units, on one of its four sides
+            side, along = j % 4, k
+            span = hi - lo
+            if side < 2:
+                out.append(np.array([lo[0] - dist if side == 0 else hi[0] + dist, lo[1] + along % int(span[1] + 1)]))
+            else:
+                out.append(np.array([lo[0] + along % int(span[0] + 1), lo[1] - dist if side == 2 else hi[1] + dist]))
+        flags.append(what in ("hole", "far"))
+    y = np.array(out, dtype=float).reshape(-1, 2)
+    flags = np.array(flags, dtype=bool)
+    n_in = np.zeros(len(y), dtype=int)  # number of (listed) triangles that contain each point, boundary included
+    for tri in kept:
+        n_in += mesh_bary_min(v, [tri], y) >= 0
+    return y, flags, n_in
+
+
+def c_mesh(case, ctx):
+    """Source = explicit TriMesh in integer coordinates with removed triangles; inputs = source vertices, midpoints of
+    edges, dyadic interior points (all exactly representable, all inside a CLOSED triangle) mixed with points in removed
+    triangles and beyond the bounding box: the error names exactly the latter, for every batch size, directly and
+    through chains whose other members are exact (integer translation, scaling by a power of two)."""
+    import menpo.transform as mt
+    from menpo.shape import TriMesh
+    from menpo.transform.piecewiseaffine.base import CachedPWA, PythonPWA
+
+    v, kept, gone = _grid_mesh(case["g"])
+    tgt = v.dot(np.array(case["tm"], dtype=float).T) + np.array(case["tt"], dtype=float) + gen.arr(case["tn"])[: len(v)]
+    y, want_mask, n_in = _mesh_points(case, v, kept, gone)
+    n = y.shape[0]
+    # the construction must agree with the independent membership reference (a disagreement is a harness error)
+    bm = mesh_bary_min(v, kept, y)
+    assert np.array_equal(bm < 0, want_mask) and (np.abs(bm[want_mask]) > 1e-3).all(), (bm, want_mask)
+    cls = {"PiecewiseAffine": mt.PiecewiseAffine, "CachedPWA": CachedPWA, "PythonPWA": PythonPWA}[case["member"]]
+    pwa = cls(TriMesh(v, trilist=kept), PointCloud(tgt))
+    pre = mt.Translation(np.array(case["pre"][1:], dtype=float)) if case["pre"][0] == "t" else mt.UniformScale(2.0 ** case["pre"][1], 2)
+    post = objs.build_homog(case["post"])
+    f = case["form"]
+    has_pre = f in ("chain_pre", "compose_before", "chain_pre_post", "nested")
+    hpost = post.h_matrix.copy() if f in ("chain_post", "chain_pre_post", "nested") else None
+    t = {"direct": lambda: pwa, "chain_pre": lambda: mt.TransformChain([pre, pwa]), "compose_before": lambda: pre.compose_before(pwa),
+         "chain_post": lambda: post.compose_after(pwa), "chain_pre_post": lambda: mt.TransformChain([pre, pwa, post]),
+         "nested": lambda: mt.TransformChain([mt.TransformChain([pre, pwa]), post])}[f]()
+    if has_pre:  # exact pull-back: integers / eighths minus integers, or times a power of two
+        x = y - np.array(case["pre"][1:], dtype=float) if case["pre"][0] == "t" else y / 2.0 ** case["pre"][1]
+    else:
+        x = y.copy()
+    multi = int((n_in[~want_mask] > 1).sum())
+    ctx.event("form=%s" % f)
+    ctx.event("member=%s" % case["member"])
+    ctx.event("removed triangles" if len(gone) else "no removed triangle")
+    if case["g"].get("dup"):
+        ctx.event("a triangle listed twice")
+    ctx.event("outside: %s; inside points in 2+ triangles: %s" % ("none" if not want_mask.any() else "all" if want_mask.all() else "some", "yes" if multi else "no"))
+    ctx.nontrivial(bool(want_mask.any()) and multi > 0)
+    d_t = digest.digest(t, skip=_CACHE)
+    exp = None
+    if not want_mask.any():
+        exp, ref_out = pwa_reference(v, tgt, kept, y)
+        assert not ref_out.any()
+        if hpost is not None:
+            exp = objs.ref_apply_h(hpost, exp)
+    vals = {}
+    for ks in ["none"] + list(case["ks"]):
+        k = _bs(ks, n)
+        xin = x.copy()
+        m, val = _outcome(t, xin, k)
+        ctx.expect(np.array_equal(xin, x), "argument_mutated", "mesh")
+        if not ctx.expect(m.shape == (n,), "mesh.mask_length", "batch_size=%r: %r for %d points" % (k, m.shape, n)):
+            continue
+        if val is not None and want_mask.any():
+            ctx.fail("mesh.out_of_domain_point_accepted", "batch_size=%r: no error although points %s lie outside every source triangle (triangles containing each point: %s)"
+                     % (k, np.nonzero(want_mask)[0].tolist(), n_in.tolist()))
+        elif val is None and not want_mask.any():
+            ctx.fail("mesh.point_of_a_closed_triangle_refused", "batch_size=%r: points %s (vertices / edge midpoints / interior points of source triangles) reported outside"
+                     % (k, np.nonzero(m)[0].tolist()))
+        elif val is None:
+            ctx.expect(np.array_equal(m, want_mask), "mesh.failure_mask_wrong_points",
+                       lambda: "batch_size=%r: outside=%s expected %s (triangles containing each point: %s)" % (k, m.astype(int).tolist(), want_mask.astype(int).tolist(), n_in.tolist()))
+        if val is not None and exp is not None:
+            if ctx.expect(np.shape(val) == exp.shape, "mesh.result_shape", "%r" % (np.shape(val),)):
+                tol = 1e-9 * (1 + np.abs(exp).max()) * max(1.0, float(np.abs(hpost[:2, :2]).sum()) if hpost is not None else 1.0)
+                ctx.expect(close(val, exp, rtol=0, atol=tol), "mesh.values_vs_reference", lambda: "batch_size=%r\n%s" % (k, describe(val, exp)))
+                if "none" in vals:
+                    ctx.expect(close(val, vals["none"], rtol=0, atol=1e-12 * (1 + np.abs(exp).max())), "mesh.batched_values_differ", lambda: describe(val, vals["none"]))
+                vals[ks] = val
+    dd = digest.parameter_mutation(d_t, digest.digest(t, skip=_CACHE))
+    ctx.expect(dd is None, "mesh.transform_parameters_changed", lambda: repr(dd))
+
+
 @st.composite
 def s_empty(draw):
     tc = draw(s_tcase())
@@ -592,7 +1168,9 @@ def c_empty(case, ctx):
 
 CLAUSES = [
     Clause("history", c_history, s_history, quick=1500, thorough=40000, nt_floor=0.5,
-           rule="apply histories on one instance; non-trivial: >=3 applies with a re-used / perturbed input, or a mixed-domain apply"),
+           rule="apply histories on one instance (arrays, shapes, landmarked shapes, other dtypes / layouts, batches, mixed-domain "
+                "inputs); every returned array is kept and must stay untouched and unaliased; non-trivial: >=3 applies with a re-used / "
+                "perturbed input, or a mixed-domain apply"),
     Clause("batch", c_batch, s_batch, quick=2500, thorough=80000, nt_floor=0.2,
            rule="apply(x, batch_size=k) == apply(x); non-trivial: k does not divide n or exceeds it"),
     Clause("boundary", c_boundary, s_boundary, quick=800, thorough=25000, nt_floor=0.5,
@@ -600,13 +1178,23 @@ CLAUSES = [
                 "(result or failure mask) identical for every batch size and for each point alone (differential, no "
                 "containment reference)"),
     Clause("constrain", c_constrain, s_constrain, quick=600, thorough=15000, nt_floor=0.5,
-           rule="BooleanImage.constrain_to_pointcloud independent of batch size and equal to the convex-hull reference"),
+           rule="BooleanImage.constrain_to_pointcloud / constrain_to_landmarks / MaskedImage.constrain_mask_to_landmarks on a PointCloud, "
+                "a TriMesh with removed triangles or an integer-lattice TriMesh, blank or random starting mask: independent of batch size, "
+                "original image untouched; from a blank mask equal to the convex-hull reference (PointCloud) / the listed-triangle "
+                "membership reference (TriMesh)"),
     Clause("composite", c_composite, s_composite, quick=1200, thorough=30000, nt_floor=0.3,
            rule="a chain / compose_before / compose_after result / nested chain with ONE piecewise-affine member, applied to "
                 "0..6 in-domain points (pulled back through the exact inverse of what precedes the member) mixed with 0..3 "
                 "far-outside points, for several batch sizes: failure mask has one entry per input point, equals the "
                 "constructed in/out pattern and the unbatched outcome; values equal barycentric reference followed by the "
                 "matrix of what follows; non-trivial: both kinds of point present, or no point at all"),
+    Clause("mesh", c_mesh, s_mesh, quick=1500, thorough=40000, nt_floor=0.25,
+           rule="piecewise affine whose source is an explicit TriMesh in integer coordinates (sheared / scaled lattice, triangles removed: "
+                "holes, non-convex outlines, separate pieces; sometimes a triangle listed twice); 1..8 input points that are source "
+                "vertices, midpoints of edges, dyadic interior points (each inside a closed triangle, most in several) or lie in a removed "
+                "triangle / beyond the bounding box; directly and through chains with an exact pre-transform, every batch size: error iff "
+                "a point is outside, mask == constructed pattern (cross-checked by an edge-function membership reference), values == "
+                "barycentric reference; non-trivial: >= 1 outside point together with >= 1 inside point contained in 2+ triangles"),
     Clause("empty", c_empty, s_empty, quick=300, thorough=5000, nt_floor=0.5,
            rule="(0, n_dims) input of several dtypes, array or PointCloud, every transform kind: batched apply returns what "
                 "the unbatched apply returns"),
